@@ -99,31 +99,31 @@ type Spec struct {
 
 // Result is what a run reports besides its trace.
 type Result struct {
-	Name     string                 `json:"name"`
-	State    string                 `json:"state"`
-	States   []string               `json:"states"` // final state of every incarnation
-	Iter     int                    `json:"iter"`
-	Execs    map[string]int         `json:"execs"`
-	Ended    map[string]string      `json:"ended"`
-	ArgsBad  []string               `json:"args_bad"`
-	Unknown  []string               `json:"unknown_jobs"`
-	TopOuts  interface{}            `json:"top_outs"`
-	OutsOk   bool                   `json:"outs_ok"`
-	ForkDirs map[string][]string    `json:"fork_dirs"`
-	JobDirs  []string               `json:"job_dirs"`
-	Error    string                 `json:"error"`
-	FatalFq  string                 `json:"fatal_fq"`
-	FatalLog string                 `json:"fatal_log"`
-	Stuck    bool                   `json:"stuck"`
-	Script   []string               `json:"script"`
-	Events   int                    `json:"events"`
+	Name     string                   `json:"name"`
+	State    string                   `json:"state"`
+	States   []string                 `json:"states"` // final state of every incarnation
+	Iter     int                      `json:"iter"`
+	Execs    map[string]int           `json:"execs"`
+	Ended    map[string]string        `json:"ended"`
+	ArgsBad  []string                 `json:"args_bad"`
+	Unknown  []string                 `json:"unknown_jobs"`
+	TopOuts  interface{}              `json:"top_outs"`
+	OutsOk   bool                     `json:"outs_ok"`
+	ForkDirs map[string][]string      `json:"fork_dirs"`
+	JobDirs  []string                 `json:"job_dirs"`
+	Error    string                   `json:"error"`
+	FatalFq  string                   `json:"fatal_fq"`
+	FatalLog string                   `json:"fatal_log"`
+	Stuck    bool                     `json:"stuck"`
+	Script   []string                 `json:"script"`
+	Events   int                      `json:"events"`
 	Trace    []map[string]interface{} `json:"-"`
-	Notes    []string               `json:"notes"`
+	Notes    []string                 `json:"notes"`
 	// per-fork _invocation files of stages: how many were checked, which are wrong
 	PostChecked int      `json:"post_checked"`
 	PostBad     []string `json:"post_bad"`
-	InvChecked int      `json:"inv_checked"`
-	InvBad     []string `json:"inv_bad"`
+	InvChecked  int      `json:"inv_checked"`
+	InvBad      []string `json:"inv_bad"`
 }
 
 type job struct {
@@ -137,19 +137,19 @@ type job struct {
 }
 
 type Driver struct {
-	spec   *Spec
-	tr     *Trace
-	ps     *core.Pipestance
-	rt     *core.Runtime
-	psdir  string
-	psid   string
-	mu     sync.Mutex
-	jobs   []*job          // submitted, in submission order
-	byKey  map[string]*Inv // predicted table
-	forks  map[string]core.VerifForkInfo
-	res    *Result
-	rng    *rand.Rand
-	script []string
+	spec      *Spec
+	tr        *Trace
+	ps        *core.Pipestance
+	rt        *core.Runtime
+	psdir     string
+	psid      string
+	mu        sync.Mutex
+	jobs      []*job          // submitted, in submission order
+	byKey     map[string]*Inv // predicted table
+	forks     map[string]core.VerifForkInfo
+	res       *Result
+	rng       *rand.Rand
+	script    []string
 	scriptPos int
 	frozen    bool
 	frozenAt  int
